@@ -63,7 +63,50 @@ def helpers_race(res):
                        "report": (p.stdout or "")[:2000]})
 
 
+def cel_readonly(res):
+    """CEL rules (comprehensions, filter/map over slices and maps) must not modify the receiver either:
+    compiled code only (the GoLite model does not interpret CEL conditions)."""
+    import genfam
+    from synth import T, basic, case, fld, scenario, struct
+    sl_i, sl_f, sl_s = T("[]int", "TSlice", "coll"), T("[]float64", "TSlice", "coll"), T("[]string", "TSlice", "coll")
+    exprs = [("Q", sl_i, "size(value.filter(item, item > 0)) <= 2"), ("R", sl_i, "value.all(x, x >= -10) && size(value.map(x, x * 2)) >= 0"),
+             ("S", sl_i, "value.exists(x, x > 6) || value.exists_one(x, x == 5)"), ("F", sl_f, "size(value.filter(v, v > 0.5)) < 3"),
+             ("N", sl_s, "size(value.filter(n, n != '')) >= 1 && value.all(n, size(n) < 9)"), ("U", T("[]uint8", "TSlice", "coll"), "size(value.filter(b, b > 1)) <= 1")]
+    fields = [fld(nm, ["//govalid:cel=" + e], t) for nm, t, e in exprs]
+
+    def sets(ints, strs):
+        return [{"path": "Q", "vk": "coll", "intelems": ints}, {"path": "R", "vk": "coll", "intelems": ints[::-1]},
+                {"path": "S", "vk": "coll", "intelems": ints}, {"path": "F", "vk": "coll", "intelems": ints},
+                {"path": "N", "vk": "coll", "strelems": [x.encode().hex() for x in strs]}, {"path": "U", "vk": "coll", "intelems": [abs(i) for i in ints]}]
+    cases = [case(sets([-1, 5, 7], ["", "ab", "c"])), case(sets([3, -2, 4, 9], ["a", "", ""])), case(sets([0, 0, 1], ["x"])), case(sets([9, 8, 7, 6, 5], ["", "", "z"])), case(sets([-5], [""]))]
+    gr = genfam.GenRun(res, {"scenarios": [scenario("c16cel", [struct("T", fields, cases)])]}, "c16cel")
+    if not gr.generate() or gr.gen_status != 0:
+        return
+    gr.translate()
+    ok, errs = gr.go_vet_build()
+    if not ok:
+        res.coverage["cel_readonly"] = "scenario does not compile: " + str(errs)[:300]
+        return
+    obs = gr.drive()
+    if obs is None:
+        return
+    n = 0
+    for key, o in obs.items():
+        n += 1
+        if o["mut"] != "0" or o["smut"] != "0" or not (o["V"] == o["VT"] == o["VC"] == o["VTC"]):
+            j = int(key.rsplit("/", 1)[1])
+            res.violation({"kind": "spec-violation", "struct": "c16cel/T", "case_index": j, "case": cases[j], "observed": o,
+                           "source": genprop.struct_source(gr, "c16cel/T"),
+                           "what": "a CEL rule modified the receiver, or repeated calls on the unchanged value returned different results"})
+            break
+    rc, out, err = gr.race(8, 40)
+    if "DATA RACE" in err or rc == 66:
+        res.violation({"kind": "spec-violation", "what": "data race during concurrent validation of a struct with CEL rules", "report": err[:3000]})
+    res.coverage["cel_readonly_cases"] = n
+
+
 def check(res):
+    cel_readonly(res)
     corpus = corpora.c07(res.seed, "quick")
     corpus["scenarios"] = [s for s in corpus["scenarios"] if not s["id"].startswith("c07k")][: (20 if res.tier == "quick" else 40)]
     genprop.run(res, "C16", PROPFILE, corpus, extra=lambda gr, r: readonly_and_race(res, gr, r))
